@@ -3,7 +3,7 @@
    proposal with one transaction it does not hold, and asks the application for it.  Everything is computed with the
    executable model (vm_compute). *)
 From Coq Require Import ZArith List.
-From DbftV Require Import Gates NoPanic P10 P12 Replay D1 S1 V1 SignLApi SignLNoCV SignLCM.
+From DbftV Require Import Gates NoPanic P10 P12 Replay D1 S1 V1 SignLApi SignLNoCV SignLCM SignPNoCV.
 From DbftV Require Spec_dbft Spec_antiMEV.
 Open Scope Z_scope.
 
@@ -138,6 +138,16 @@ Example a_commit_broadcast_after_the_signature_request :
 Proof.
   destruct (epoch_with_okb_sound v1_cfg (firstn 7 v1) 0 (cm_after_sign 0) ltac:(vm_compute; reflexivity)) as (st & g & HE & Hk & Hz & _ & Hf).
   destruct (cm_after_sign_sound g 0%nat Hf) as (g1 & s & p & g2 & E & Ty & Hn). exists st, g, g1, s, p, g2. auto 10.
+Qed.
+
+(* the hypotheses of the lock after the PreCommit: in the anti-MEV round S1 the node asks for pre-commit data in its fourth call
+   (the response that completes M preparations); the fifth call follows it *)
+Example a_call_after_the_precommit :
+  exists st g ev sc st' tr, Epoch s1_cfg st g /\ continues ev /\ step s1_cfg st ev sc = Ok (st', tr) /\ KS 0 (g ++ tr) /\
+                            zlen (Validators st) <= 65536 /\ nset g <> 0%nat.
+Proof.
+  destruct (lockp_okb_sound s1_cfg (firstn 4 s1) (fst (nth 4 s1 (EReset 0, []))) (snd (nth 4 s1 (EReset 0, []))) 0 ltac:(vm_compute; reflexivity))
+    as (st & g & st' & tr & H). eauto 10.
 Qed.
 
 (* the shipped constants of the TLA+ models satisfy the translated ASSUME (the hypothesis of the C20 theorems) *)
